@@ -17,6 +17,7 @@ import (
 	"sort"
 	"strings"
 	stdsync "sync"
+	"sync/atomic"
 	"testing/synctest"
 	"time"
 
@@ -141,6 +142,48 @@ func (s source) Class(ctx context.Context, h *felt.Felt) (core.ClassDefinition, 
 	return def, nil
 }
 
+// guardDB is the repository's memory database with a per-step read budget: a node goroutine that
+// spins through database reads without ever reaching a park point (a DataSource call, a commit, a
+// timer) would keep the scheduler waiting for quiescence forever. When one scheduler step performs
+// more than readBudget point reads, every further read fails until the scheduler has regained
+// control, which it reports. (Seen with a planted mutation: revertTask loops without a seam call
+// while RevertHead keeps failing.)
+type guardDB struct {
+	*memory.Database
+	on   atomic.Bool
+	n    atomic.Int64
+	trip atomic.Bool
+}
+
+const readBudget = 200000
+
+var errSpin = errors.New("jsim: read budget of one scheduler step exhausted (node spins without reaching a park point)")
+
+func (g *guardDB) over() bool {
+	if !g.on.Load() {
+		return false
+	}
+	if g.trip.Load() || g.n.Add(1) > readBudget {
+		g.trip.Store(true)
+		return true
+	}
+	return false
+}
+
+func (g *guardDB) Has(key []byte) (bool, error) {
+	if g.over() {
+		return false, errSpin
+	}
+	return g.Database.Has(key)
+}
+
+func (g *guardDB) Get(key []byte, cb func([]byte) error) error {
+	if g.over() {
+		return errSpin
+	}
+	return g.Database.Get(key, cb)
+}
+
 // ---- world -------------------------------------------------------------------------------------
 
 type config struct {
@@ -206,7 +249,7 @@ type world struct {
 	reorgsN  int
 
 	// node
-	mem     *memory.Database
+	mem     *guardDB
 	fdb     *faultdb.DB
 	bc      *blockchain.Blockchain
 	syn     *jsync.Synchronizer
@@ -240,6 +283,7 @@ type world struct {
 	revertsN       int
 	maxParkedBlock int
 
+	spun       bool // the read budget of the last step was exhausted
 	classBurst bool                               // a burst of Class calls has been let through
 	classDefs  map[felt.Felt]core.ClassDefinition // what Class serves (C20)
 
@@ -308,7 +352,7 @@ func newWorld(c *sim.Ctx, cfg config) *world {
 	w.cur = &version{id: 1, chain: chain}
 	w.versions = []*version{w.cur}
 
-	w.mem = memory.New()
+	w.mem = &guardDB{Database: memory.New()}
 	w.fdb = faultdb.Wrap(w.mem)
 	w.fdb.Plan.BeforeCommit = func(k int) {
 		if w.sched {
@@ -334,6 +378,7 @@ func newWorld(c *sim.Ctx, cfg config) *world {
 // startNode creates the real Synchronizer and runs it.
 func (w *world) startNode() {
 	w.sched = true
+	w.mem.on.Store(true)
 	w.syn = jsync.New(w.bc, source{w}, log.NewNopZapLogger(), w.cfg.interval, false, w.fdb)
 	w.syn.WithListener(&jsync.SelectiveListener{OnReorgCb: func(n uint64) {
 		w.mu.Lock()
@@ -369,6 +414,7 @@ func (w *world) shutdown() {
 	w.mu.Lock()
 	w.closing = true
 	w.mu.Unlock()
+	w.mem.on.Store(false)
 	if w.cancel == nil {
 		return
 	}
@@ -693,6 +739,10 @@ func (w *world) settle() []*req {
 		for _, r := range gone {
 			r.ch <- resp{err: r.ctx.Err()}
 		}
+	}
+	w.mem.n.Store(0)
+	if w.mem.trip.Swap(false) {
+		w.spun = true
 	}
 	w.mu.Lock()
 	ps := append([]*req(nil), w.parked...)
